@@ -189,7 +189,7 @@ def standard_check(spec, argv):
         mon_by_sig.setdefault(sig, []).append((i, msg))
     extra = []
     try:
-        extra = spec.extra_checks(dict(tier=tier, seed=seed, wd=wd, impl=impl, rng=rng)) or []
+        extra = spec.extra_checks(dict(tier=tier, seed=seed, wd=wd, impl=impl, rng=rng, cases=cases, model_obs=model_obs, proof_broken=broken)) or []
     except Exception as ex:
         extra = [('extra-check-error', 'extra check raised: ' + str(ex)[-800:], None)]
     unknown_fail = False
